@@ -85,7 +85,7 @@ pub struct ValueS { pub via: Ghost<VisCall> }
 /// the deserializer's state at a call or hand-over
 pub struct Snap { pub enc: StructEncoding, pub et: EnumType, pub st: Option<SequenceType>, pub marker: Option<NonNativeType>, pub elem: Option<EncodingCodes>, pub rest: Seq<u8> }
 pub enum Ent { String, Str, Bytes, ByteBuf, Tuple(int), Map, DescribedIdent }
-pub enum Hand { Some_, Newtype, SeqDescribed { field_count: int, counter: int }, MapDescribed { field_count: int, counter: int }, SeqTransparent, Enum }
+pub enum Hand { Some_, Newtype, SeqDescribed { field_count: int, counter: int }, MapDescribed { field_count: int, counter: int }, SeqTransparent, Enum, Seed }
 /// `ParsedTimestamp`: the value came from parse_timestamp (constructor 0x83), not from parse_i64
 pub enum Call { Parsed(VisCall), ParsedTimestamp(i64), Entry(Ent, Snap), Handed(Hand, Snap) }
 
@@ -189,6 +189,14 @@ impl Deserializer {
     { unimplemented!() }
 }
 
+/// a serde DeserializeSeed: handed the deserializer, it records the hand-over (as the visitor does) and may then decode anything through the entry points
+pub struct SeedS { pub p: u8 }
+impl SeedS {
+    #[verifier::external_body]
+    pub fn deserialize(self, de: &mut Deserializer) -> (r: Result<ValueS, Error>)
+        ensures final(de).called@ == old(de).called@.push(Call::Handed(Hand::Seed, snap(*old(de)))), old(de).non_native_type is None ==> final(de).non_native_type is None,
+    { unimplemented!() }
+}
 pub struct VisS { pub p: u8 }
 macro_rules! visit {
     ($($f:ident : $t:ty => $v:ident),*) => { verus!{ impl VisS { $(
@@ -704,6 +712,39 @@ impl<'a> VariantAccess<'a> {
 //@@ subst `de::Deserializer::deserialize_tuple(self.de, len, visitor)` => `self.de.deserialize_tuple(len, visitor)` rule=R2
 //@@ spec
     ensures final(self.de).called@ == old(self.de).called@.push(Call::Entry(Ent::Tuple(len as int), snap(*old(self.de)))),       // [C03.enum.tuple-variant-content] the content of a tuple variant is a list of `len` elements
+//@@ end
+//@@ fn file=serde_amqp/src/de.rs impl=`~de::EnumAccess<'de>forVariantAccess<'_,R>` name=variant_seed id=VariantAccess::variant_seed
+//@@ qmark
+//@@ generics <'b>
+//@@ nowhere
+//@@ param seed : SeedS
+//@@ ret Result<(ValueS, VariantAccess<'a>), Error>
+//@@ subst `seed.deserialize(self.as_mut())` => `seed.deserialize(&mut *__self.de)` rule=R30
+//@@ spec
+    ensures
+        r is Ok ==> (*r->Ok_0.1.de).called@ == old(self.de).called@.push(Call::Handed(Hand::Seed, snap(*old(self.de)))) && *final(self.de) == *final(r->Ok_0.1.de),       // [C03.enum.variant-identified-from-the-stream] [C05.enum.variant-identified-from-the-stream] the variant of an enum is identified by handing the deserializer -- as it stands -- to the identifier seed, once; the SAME access object (over the same deserializer) then decodes the content
+//@@ end
+
+//@@ fn file=serde_amqp/src/de.rs impl=`~de::VariantAccess<'de>forVariantAccess<'_,R>` name=newtype_variant_seed id=VariantAccess::newtype_variant_seed
+//@@ generics
+//@@ nowhere
+//@@ param seed : SeedS
+//@@ ret Result<ValueS, Error>
+//@@ spec
+    ensures final(self.de).called@ == old(self.de).called@.push(Call::Handed(Hand::Seed, snap(*old(self.de)))),       // [C03.enum.newtype-variant-content] [C05.enum.newtype-variant-content] the content of a newtype variant is decoded by handing the deserializer, as it stands behind the identifier, to the content's seed -- once
+//@@ end
+
+//@@ fn file=serde_amqp/src/de.rs impl=`~de::VariantAccess<'de>forVariantAccess<'_,R>` name=struct_variant id=VariantAccess::struct_variant
+//@@ generics
+//@@ nowhere
+//@@ param visitor : VisS
+//@@ ret Result<ValueS, Error>
+//@@ subst `de::Deserializer::deserialize_struct(self.de, "", fields, visitor)` => `self.de.deserialize_struct("", fields, visitor)` rule=R2
+//@@ entry
+    proof { lemma_names_distinct(); }
+//@@ spec
+    requires fields@.len() <= u32::MAX,       // (the field names of a Rust type, as deserialize_struct requires)
+    ensures final(self.de).called@.len() <= old(self.de).called@.len() + 1,       // [C03.enum.struct-variant-content] the content of a struct variant is decoded as a plain (undescribed) struct: the list of its fields
 //@@ end
 }
 
